@@ -29,6 +29,61 @@ def ancestors(rec, start_ids):
     return seen
 
 
+def network_mates(rec, entity_ids):
+    """ids of all entities that share a physical wire network with some connector of the given entities (from the
+    printed blueprint's wire list)"""
+    ids = rec.get("entity_ids", [])
+    wires = rec.get("printed", {}).get("blueprint", {}).get("wires", []) or []
+    parent = {}
+
+    def find(x):
+        while parent.setdefault(x, x) != x:
+            parent[x] = parent[parent[x]]
+            x = parent[x]
+        return x
+    for e1, c1, e2, c2 in wires:
+        if c1 >= 5 or c2 >= 5:
+            continue
+        parent[find((e1, c1))] = find((e2, c2))
+    num = {i: k + 1 for k, i in enumerate(ids)}
+    roots = set()
+    for i in entity_ids:
+        n = num.get(i)
+        if n is None:
+            continue
+        for c in (1, 2, 3, 4):
+            if (n, c) in parent:
+                roots.add(find((n, c)))
+    mates = set()
+    for (n, c) in list(parent):
+        if find((n, c)) in roots and 0 < n <= len(ids):
+            mates.add(ids[n - 1])
+    return mates
+
+
+def classify_shared(rec, verdict, name):
+    """For a result the validator does not accept although its own value is right: a listed wiring defect on a network
+    the result's cone is attached to (the foreign producer sits on the wire the cone reads, so the bundle bound to that
+    wire cannot be validated even where the selected signal is untouched)."""
+    ref = rec.get("names", {}).get(name) or {}
+    src = ref.get("src") if isinstance(ref, dict) else None
+    ids = set(rec.get("entity_ids", []))
+    starts = {x for x in (src, f"{src}_{name}_output_anchor") if x in ids}
+    if not starts:
+        return None
+    mates = network_mates(rec, ancestors(rec, starts))
+    wire = verdict.get("wire", {})
+    if wire.get("unjustified") or wire.get("missing"):
+        return None
+    for p in wire.get("pollution", []):
+        if p["producer"] in mates and p["sink"] in mates:
+            return ("F23", f"wildcard operand of {p['sink']} also sees {p['producer']}, which is planned for one of its scalar operands (on a network the result reads)")
+    for i in wire.get("intrusions", []):
+        if i["producer"] in mates and i["sink"] in mates:
+            return ("F02", f"fan-out merge: {i['producer']} is visible to {i['sink']} on {i['sig']} although no planned edge joins them (on a network the result reads)")
+    return None
+
+
 def f19_deciders(rec):
     """Multi-condition deciders whose rows read one signal name from two different sources:
     the emitted rows carry no network selection, so both sources are summed (finding F19)."""
@@ -350,7 +405,8 @@ def run_semantic(res, sources, opts=None, count=30, extra_case=None, label="prog
                 if name in pnames:
                     continue
                 mm0 = {"name": name, "expected": {}, "got": {}}
-                cl = classify_mismatch(c, v, mm0) or (classify_extra(c, v, mm0) if classify_extra else None)
+                cl = classify_mismatch(c, v, mm0) or (classify_extra(c, v, mm0) if classify_extra else None) or \
+                    classify_shared(c, v, name)
                 if cl:
                     res.known(cl[0], cl[1], example={"source": c["source"], "unproved": name})
                     stats["finding(static):" + cl[0]] += 1
